@@ -684,3 +684,60 @@ def _scan_len_underflow(obj):
 
 def len_underflows():
     return _cached('lenuf1', _scan_len_underflow)
+
+
+# ---------------------------------------------------------------------------------------------------------------------------------------
+# unrolled per-lane sequences: displacements in arithmetic progression
+
+def _scan_progressions(obj):
+    """in the occurrences of one instruction form (same mnemonic and operands up to the displacement) within one routine, five consecutive
+    displacements a, b, c, d, e with b - a == e - d == s and e - a == 4 s say the middle one is a + 2 s; a different middle one is the odd
+    man out of an unrolled per-lane sequence (lane 13 loading lane 12's pointer)"""
+    from . import asmint
+    insns, labels, funcs, syms = asmint.parse_obj(obj)
+    order = sorted(insns)
+    starts = {a: n for n, a in funcs.items()}
+    cur = None
+    seqs = {}
+    for a in order:
+        if a in starts:
+            cur = starts[a]
+        ins = insns[a]
+        if not re.match(r'^v?(mov|pinsr|pextr|padd|pxor|broadcast|pbroadcast)', ins['mn']) and ins['mn'] not in ('mov', 'lea', 'add', 'cmp'):
+            continue
+        m = re.search(r'\[(\w+)(?:\+(\w+)\*(\d))?([+-]0x[0-9a-f]+)\]', ins['ops'])
+        if not m or 'rip' in m.group(0) or m.group(1) in ('rsp', 'rbp'):
+            continue
+        d = int(m.group(4), 16)
+        tmpl = ins['mn'] + ' ' + ins['ops'][:m.start(4)] + '#' + ins['ops'][m.end(4):]
+        seqs.setdefault((cur, tmpl), []).append((a, d, ins['txt']))
+    out = []
+    nwin = 0
+    seen_f = set()
+    for (fn, tmpl), occ0 in seqs.items():
+        # one form may serve two or three interleaved progressions (keys and IVs of the same lanes): every 2nd / 3rd occurrence is looked
+        # at as a sequence of its own as well
+        for fac in (1, 2, 3):
+            for off0 in range(fac):
+                occ = occ0[off0::fac]
+                if len(occ) < 6:
+                    continue
+                for i in range(len(occ) - 4):
+                    w = [occ[i + k][1] for k in range(5)]
+                    if w[4] == w[0] or (w[4] - w[0]) % 4:
+                        continue
+                    s_ = (w[4] - w[0]) // 4
+                    off = [k for k in (1, 2, 3) if w[k] != w[0] + k * s_]
+                    if not off:
+                        nwin += 1
+                    elif len(off) == 1 and abs(w[off[0]] - (w[0] + off[0] * s_)) < abs(s_):
+                        k = off[0]
+                        nwin += 1
+                        if (fn, occ[i + k][0]) not in seen_f:
+                            seen_f.add((fn, occ[i + k][0]))
+                            out.append({'fn': fn, 'a': occ[i + k][0], 'txt': occ[i + k][2], 'want': w[0] + k * s_, 'got': w[k], 'step': s_})
+    return {'windows': nwin, 'findings': out}
+
+
+def progressions():
+    return _cached('prog4', _scan_progressions)
